@@ -41,16 +41,29 @@ type chunkReader struct {
 	data   []byte
 	pos    int
 	stalls int
-	err    error // sticky after first error
+	err    error // the first error returned (EOF is sticky; an injected error is returned once)
+	errPos int   // bytes handed over up to and including the read that returned err
 	log    []string
 	nData  int // reads that returned data
 	after  int // reads after an error was returned
 }
 
 func (r *chunkReader) Read(p []byte) (int, error) {
-	if r.err != nil {
+	if r.err == io.EOF {
 		r.after++
 		return 0, r.err
+	}
+	if r.err != nil {
+		// a transient fault: the reader would go on delivering the rest of the
+		// stream if asked again - a scanner that ended the stream never asks
+		r.after++
+		n := copy(p, r.data[r.pos:])
+		r.pos += n
+		r.log = append(r.log, fmt.Sprintf("after-error %d/%d", n, len(p)))
+		if n == 0 {
+			return 0, io.EOF
+		}
+		return n, nil
 	}
 	rem := len(r.data) - r.pos
 	c := len(p)
@@ -81,6 +94,8 @@ func (r *chunkReader) Read(p []byte) (int, error) {
 	for k := c; k >= 0; k-- {
 		alts = append(alts, alt{k, errInjected, 1})
 	}
+	// the same with an error value that merely looks like an end of input
+	alts = append(alts, alt{c, io.ErrUnexpectedEOF, 1}, alt{0, io.ErrUnexpectedEOF, 1})
 	costs := make([]int, len(alts))
 	for i, a := range alts {
 		costs[i] = a.cost
@@ -96,6 +111,7 @@ func (r *chunkReader) Read(p []byte) (int, error) {
 	}
 	if a.err != nil {
 		r.err = a.err
+		r.errPos = r.pos
 	}
 	r.log = append(r.log, fmt.Sprintf("%d/%d:%v", a.n, len(p), errName(a.err)))
 	return a.n, a.err
@@ -107,6 +123,8 @@ func errName(e error) string {
 		return "nil"
 	case io.EOF:
 		return "EOF"
+	case io.ErrUnexpectedEOF:
+		return "ERR(unexpected EOF)"
 	}
 	return "ERR"
 }
@@ -173,6 +191,9 @@ func runOne(ex *mc.Explorer, sc string, buf int, data []byte) (res result) {
 	// the stream the scanner was given: all bytes handed over before the
 	// error (or all of them)
 	delivered := data[:r.pos]
+	if r.err != nil && r.err != io.EOF {
+		delivered = data[:r.errPos]
+	}
 	want := refLines(delivered)
 	res.reads = r.log
 	res.nData = r.nData
@@ -202,7 +223,7 @@ func runOne(ex *mc.Explorer, sc string, buf int, data []byte) (res result) {
 	if errCalls != wantErr {
 		return bad("onerror-count", fmt.Sprintf("OnError called %d times, want %d", errCalls, wantErr))
 	}
-	if wantErr == 1 && errSeen != errInjected {
+	if wantErr == 1 && errSeen != r.err {
 		return bad("onerror-value", "OnError received a different error")
 	}
 	if r.err == nil {
@@ -312,7 +333,7 @@ func main() {
 		Properties: []string{"C04"},
 		Level:      "model_checking",
 		Rule: func(prop, tier string) string {
-			return "every byte string over {a,CR,LF} up to length 6 (quick) / 8 (thorough) x scanner {immediate, buffered} x buffer size 1..6/7 (buffered from 2) x every answer sequence of the underlying reader: all chunk sizes and data+EOF (free choices), up to 2 deviations (thorough: also 3 deviations for streams up to length 6) among 0-byte stalls and an injected non-EOF error with 0..k bytes at any read; executed on the real scanners, lines retained and compared after the scan. non-trivial = at least 2 data-carrying reads and at least 1 line; every execution is a distinct (stream, buffer, answer sequence) triple"
+			return "every byte string over {a,CR,LF} up to length 6 (quick) / 8 (thorough) x scanner {immediate, buffered} x buffer size 1..6/7 (buffered from 2) x every answer sequence of the underlying reader: all chunk sizes and data+EOF (free choices), up to 2 deviations (thorough: also 3 deviations for streams up to length 6) among 0-byte stalls and an injected non-EOF error (a plain error or io.ErrUnexpectedEOF) with 0..k bytes at any read, after which the reader would go on delivering the rest of the stream if asked; executed on the real scanners, lines retained and compared after the scan. non-trivial = at least 2 data-carrying reads and at least 1 line; every execution is a distinct (stream, buffer, answer sequence) triple"
 		},
 		Assumptions: func(string) []string {
 			return []string{"the reader obeys io.Reader (n <= len(p)); after an error it keeps returning that error", "byte values outside {a,CR,LF} behave like 'a' (the scanners only compare against LF and CR)"}
